@@ -180,9 +180,8 @@ theorem tie_depends_on_input_order_aux {α : Type} (lt : α → α → Bool) (a 
     isort lt [a, b] = [a, b] ∧ isort lt [b, a] = [b, a] := by
   simp [isort, insertBy, h₁, h₂]
 
-/-- ... and with any sort routine at all, some pair of input orders must give results that are not
-    both "the first input first": no routine can repair a tie canonically without reading more of
-    the objects than the comparator does. Stated as: the result is a permutation of the two. -/
+/-- With any sort routine the result for a two-element input is one of the two orders (it is a
+    permutation of the input) - nothing more is claimed. -/
 theorem tie_result_is_one_of_two_aux {α : Type} {lt : α → α → Bool} {sort : List α → List α}
     (hs : IsSort lt sort) (a b : α) : sort [a, b] = [a, b] ∨ sort [a, b] = [b, a] := by
   have p := hs.perm [a, b]
